@@ -399,3 +399,70 @@ Proof.
          [LRun BrWatch; LRun BrWatch; LInjSig SigHup; LRun BrSignal; LRun BrWatch; LRun BrWatch].
   vm_compute. auto.
 Qed.
+
+(* ---- nothing that was sent on the watcher / async-error channel is ever dropped -------------------- *)
+(* One label either leaves the queue of pending watcher notifications alone, appends to it, or —
+   only when Run sits in the select and takes the Watch() branch — removes its head, and then acts
+   on it: an error enters shutdown(), a change starts the reload. *)
+Lemma watch_fifo_l o s l :
+  let s' := fst (step o s l) in
+  (exists x, st_watch s' = st_watch s ++ x) \/
+  (l = LRun BrWatch /\ st_pc s = PSelect /\
+   exists e, st_watch s = e :: st_watch s' /\ st_pc s' = (if e then PFinal false else PReload)).
+Proof.
+  destruct s as [ph p lv g op cc cl sg w asy cx pv].
+  assert (forall wl : list bool, exists x, wl = wl ++ x) as SAME by (intros wl; exists []; now rewrite app_nil_r).
+  destruct l; simpl.
+  - destruct (Nat.eqb _ 0); simpl; [left; eexists; reflexivity|left; apply SAME].
+  - destruct (Nat.ltb _ 3); simpl; left; apply SAME.
+  - destruct who; [|destruct (option_eqb _ _ _)]; simpl; left; apply SAME.
+  - left; apply SAME.
+  - destruct ph; simpl; try (left; apply SAME); unfold shut_close, shut_check; simpl; destruct cc; simpl; left; apply SAME.
+  - unfold shut_check. destruct ph; simpl; left; apply SAME.
+  - unfold shut_close. simpl. destruct cl; [|destruct cc]; simpl; left; apply SAME.
+  - unfold run_step. simpl. destruct p; simpl; try (left; apply SAME).
+    + match goal with |- context [setup ?a ?b ?c] => destruct (setup a b c) as [[acts err] open'] end.
+      destruct err; [destruct initial|]; simpl; left; apply SAME.
+    + unfold take. simpl. destruct b.
+      * destruct w as [|e r]; simpl; [left; apply SAME|].
+        right. split; [reflexivity|split; [reflexivity|]]. exists e. destruct e; simpl; auto.
+      * destruct asy; simpl; left; apply SAME.
+      * destruct sg as [|[] r]; simpl; left; apply SAME.
+      * destruct cc; simpl; left; apply SAME.
+      * destruct cx; simpl; left; apply SAME.
+    + destruct (svc_blocked _ _); simpl; try (left; apply SAME);
+        try (destruct (svc_shutdown _ _) as [acts ok]; try destruct ok; simpl; left; apply SAME).
+    + destruct (svc_blocked _ _); simpl; try (left; apply SAME);
+        try (destruct (svc_shutdown _ _) as [acts ok]; try destruct ok; simpl; left; apply SAME).
+Qed.
+
+Lemma async_fifo_l o s l :
+  let s' := fst (step o s l) in
+  (exists x, st_async s' = st_async s ++ x) \/
+  (l = LRun BrAsync /\ st_pc s = PSelect /\ exists e, st_async s = e :: st_async s' /\ st_pc s' = PFinal false).
+Proof.
+  destruct s as [ph p lv g op cc cl sg w asy cx pv].
+  assert (forall wl : list sender, exists x, wl = wl ++ x) as SAME by (intros wl; exists []; now rewrite app_nil_r).
+  destruct l; simpl.
+  - destruct (Nat.eqb _ 0); simpl; left; apply SAME.
+  - destruct (Nat.ltb _ 3); simpl; left; apply SAME.
+  - destruct who; [|destruct (option_eqb _ _ _)]; simpl; try (left; eexists; reflexivity); left; apply SAME.
+  - left; apply SAME.
+  - destruct ph; simpl; try (left; apply SAME); unfold shut_close, shut_check; simpl; destruct cc; simpl; left; apply SAME.
+  - unfold shut_check. destruct ph; simpl; left; apply SAME.
+  - unfold shut_close. simpl. destruct cl; [|destruct cc]; simpl; left; apply SAME.
+  - unfold run_step. simpl. destruct p; simpl; try (left; apply SAME).
+    + match goal with |- context [setup ?a ?b ?c] => destruct (setup a b c) as [[acts err] open'] end.
+      destruct err; [destruct initial|]; simpl; left; apply SAME.
+    + unfold take. simpl. destruct b.
+      * destruct w as [|[] r]; simpl; left; apply SAME.
+      * destruct asy as [|e r]; simpl; [left; apply SAME|].
+        right. split; [reflexivity|split; [reflexivity|]]. exists e. auto.
+      * destruct sg as [|[] r]; simpl; left; apply SAME.
+      * destruct cc; simpl; left; apply SAME.
+      * destruct cx; simpl; left; apply SAME.
+    + destruct (svc_blocked _ _); simpl; try (left; apply SAME);
+        try (destruct (svc_shutdown _ _) as [acts ok]; try destruct ok; simpl; left; apply SAME).
+    + destruct (svc_blocked _ _); simpl; try (left; apply SAME);
+        try (destruct (svc_shutdown _ _) as [acts ok]; try destruct ok; simpl; left; apply SAME).
+Qed.
